@@ -6,6 +6,7 @@ From FT.lib Require Import Num Arr ArrLemmas Lower NumArr.
 From FT.gen Require Import Common Interp2d Interp3d Vinterp2d Vinterp3d FteikCommon Fteik2d Fteik3d Ray2d Ray3d.
 From FT.model Require Import Api.
 From FT.proofs Require Import SSR InterpR Interp3R VinterpR Vinterp3R TranslateR ApiProofs.
+From FT.proofs Require ApiGenEq.
 Import ListNotations.
 Open Scope R_scope.
 
@@ -78,6 +79,858 @@ Theorem C06_node_axes_translate :
   forall (t o d : R) (n : Z), axis_nodes (t + o) d n = map (Rplus t) (axis_nodes o d n).
 Proof. exact @ApiProofs.axis_nodes_translate. Qed.
 
+(* the same, with the left-hand side EXTRACTED from _solver.py on every run (gen/ApiGen.v): the arguments of the kernel call are the hand model's (1/grid, spacing components in order, sources - origin, nsweep, flag) *)
+Theorem C06_solver_receives_source_minus_origin_from_source_2d :
+  forall (T : Type) (N : Num T) (grid gridsize origin src : list T) (nsweep : Z) (rg : bool),
+       ApiGen.solve_args_2d grid gridsize origin src nsweep rg = (solve_args grid gridsize origin src, nsweep, rg).
+Proof. exact @ApiGenEq.gen_solve_args_2d_eq. Qed.
+
+(* 3D *)
+Theorem C06_solver_receives_source_minus_origin_from_source_3d :
+  forall (T : Type) (N : Num T) (grid gridsize origin src : list T) (nsweep : Z) (rg : bool),
+       ApiGen.solve_args_3d grid gridsize origin src nsweep rg = (solve_args grid gridsize origin src, nsweep, rg).
+Proof. exact @ApiGenEq.gen_solve_args_3d_eq. Qed.
+
+(* the returned grid objects receive the origin and the ABSOLUTE source (single and list branch alike) *)
+Theorem C06_solve_result_carries_absolute_source_and_origin_2d :
+  ApiGen.solve_2d_targets =
+       [String.String (Ascii.Ascii false false true false true true true false)
+          (String.String (Ascii.Ascii false false true false true true true false) String.EmptyString);
+        String.String (Ascii.Ascii false false true false true true true false)
+          (String.String (Ascii.Ascii false false true false true true true false)
+             (String.String (Ascii.Ascii true true true false false true true false)
+                (String.String (Ascii.Ascii false true false false true true true false)
+                   (String.String (Ascii.Ascii true false false false false true true false)
+                      (String.String (Ascii.Ascii false false true false false true true false) String.EmptyString)))));
+        String.String (Ascii.Ascii false true true false true true true false)
+          (String.String (Ascii.Ascii false true false true true true true false)
+             (String.String (Ascii.Ascii true false true false false true true false)
+                (String.String (Ascii.Ascii false true false false true true true false)
+                   (String.String (Ascii.Ascii true true true true false true true false) String.EmptyString))))] /\
+       ApiGen.solve_2d_result_ctor =
+       (String.String (Ascii.Ascii false false true false true false true false)
+          (String.String (Ascii.Ascii false true false false true true true false)
+             (String.String (Ascii.Ascii true false false false false true true false)
+                (String.String (Ascii.Ascii false true true false true true true false)
+                   (String.String (Ascii.Ascii true false true false false true true false)
+                      (String.String (Ascii.Ascii false false true true false true true false)
+                         (String.String (Ascii.Ascii false false true false true true true false)
+                            (String.String (Ascii.Ascii true false false true false true true false)
+                               (String.String (Ascii.Ascii true false true true false true true false)
+                                  (String.String (Ascii.Ascii true false true false false true true false)
+                                     (String.String (Ascii.Ascii true true true false false false true false)
+                                        (String.String (Ascii.Ascii false true false false true true true false)
+                                           (String.String (Ascii.Ascii true false false true false true true false)
+                                              (String.String (Ascii.Ascii false false true false false true true false)
+                                                 (String.String
+                                                    (Ascii.Ascii false true false false true true false false)
+                                                    (String.String
+                                                       (Ascii.Ascii false false true false false false true false)
+                                                       String.EmptyString))))))))))))))),
+        [String.String (Ascii.Ascii true true true false false true true false)
+           (String.String (Ascii.Ascii false true false false true true true false)
+              (String.String (Ascii.Ascii true false false true false true true false)
+                 (String.String (Ascii.Ascii false false true false false true true false) String.EmptyString)));
+         String.String (Ascii.Ascii true true true false false true true false)
+           (String.String (Ascii.Ascii false true false false true true true false)
+              (String.String (Ascii.Ascii true false false true false true true false)
+                 (String.String (Ascii.Ascii false false true false false true true false)
+                    (String.String (Ascii.Ascii true true false false true true true false)
+                       (String.String (Ascii.Ascii true false false true false true true false)
+                          (String.String (Ascii.Ascii false true false true true true true false)
+                             (String.String (Ascii.Ascii true false true false false true true false)
+                                String.EmptyString)))))));
+         String.String (Ascii.Ascii true true true true false true true false)
+           (String.String (Ascii.Ascii false true false false true true true false)
+              (String.String (Ascii.Ascii true false false true false true true false)
+                 (String.String (Ascii.Ascii true true true false false true true false)
+                    (String.String (Ascii.Ascii true false false true false true true false)
+                       (String.String (Ascii.Ascii false true true true false true true false) String.EmptyString)))));
+         String.String (Ascii.Ascii true true false false true true true false)
+           (String.String (Ascii.Ascii true true true true false true true false)
+              (String.String (Ascii.Ascii true false true false true true true false)
+                 (String.String (Ascii.Ascii false true false false true true true false)
+                    (String.String (Ascii.Ascii true true false false false true true false)
+                       (String.String (Ascii.Ascii true false true false false true true false) String.EmptyString)))));
+         String.String (Ascii.Ascii true true true false false true true false)
+           (String.String (Ascii.Ascii false true false false true true true false)
+              (String.String (Ascii.Ascii true false false false false true true false)
+                 (String.String (Ascii.Ascii false false true false false true true false)
+                    (String.String (Ascii.Ascii true false false true false true true false)
+                       (String.String (Ascii.Ascii true false true false false true true false)
+                          (String.String (Ascii.Ascii false true true true false true true false)
+                             (String.String (Ascii.Ascii false false true false true true true false)
+                                String.EmptyString)))))));
+         String.String (Ascii.Ascii false true true false true true true false)
+           (String.String (Ascii.Ascii false true false true true true true false)
+              (String.String (Ascii.Ascii true false true false false true true false)
+                 (String.String (Ascii.Ascii false true false false true true true false)
+                    (String.String (Ascii.Ascii true true true true false true true false) String.EmptyString))))]) /\
+       ApiGen.solve_2d_result_single =
+       [(String.String (Ascii.Ascii true true true false false true true false)
+           (String.String (Ascii.Ascii false true false false true true true false)
+              (String.String (Ascii.Ascii true false false true false true true false)
+                 (String.String (Ascii.Ascii false false true false false true true false) String.EmptyString))),
+         String.String (Ascii.Ascii false false true false true true true false)
+           (String.String (Ascii.Ascii false false true false true true true false) String.EmptyString));
+        (String.String (Ascii.Ascii true true true false false true true false)
+           (String.String (Ascii.Ascii false true false false true true true false)
+              (String.String (Ascii.Ascii true false false true false true true false)
+                 (String.String (Ascii.Ascii false false true false false true true false)
+                    (String.String (Ascii.Ascii true true false false true true true false)
+                       (String.String (Ascii.Ascii true false false true false true true false)
+                          (String.String (Ascii.Ascii false true false true true true true false)
+                             (String.String (Ascii.Ascii true false true false false true true false)
+                                String.EmptyString))))))),
+         String.String (Ascii.Ascii true true false false true true true false)
+           (String.String (Ascii.Ascii true false true false false true true false)
+              (String.String (Ascii.Ascii false false true true false true true false)
+                 (String.String (Ascii.Ascii false true true false false true true false)
+                    (String.String (Ascii.Ascii false true true true false true false false)
+                       (String.String (Ascii.Ascii true true true true true false true false)
+                          (String.String (Ascii.Ascii true true true false false true true false)
+                             (String.String (Ascii.Ascii false true false false true true true false)
+                                (String.String (Ascii.Ascii true false false true false true true false)
+                                   (String.String (Ascii.Ascii false false true false false true true false)
+                                      (String.String (Ascii.Ascii true true false false true true true false)
+                                         (String.String (Ascii.Ascii true false false true false true true false)
+                                            (String.String (Ascii.Ascii false true false true true true true false)
+                                               (String.String (Ascii.Ascii true false true false false true true false)
+                                                  String.EmptyString))))))))))))));
+        (String.String (Ascii.Ascii true true true true false true true false)
+           (String.String (Ascii.Ascii false true false false true true true false)
+              (String.String (Ascii.Ascii true false false true false true true false)
+                 (String.String (Ascii.Ascii true true true false false true true false)
+                    (String.String (Ascii.Ascii true false false true false true true false)
+                       (String.String (Ascii.Ascii false true true true false true true false) String.EmptyString))))),
+         String.String (Ascii.Ascii true true false false true true true false)
+           (String.String (Ascii.Ascii true false true false false true true false)
+              (String.String (Ascii.Ascii false false true true false true true false)
+                 (String.String (Ascii.Ascii false true true false false true true false)
+                    (String.String (Ascii.Ascii false true true true false true false false)
+                       (String.String (Ascii.Ascii true true true true true false true false)
+                          (String.String (Ascii.Ascii true true true true false true true false)
+                             (String.String (Ascii.Ascii false true false false true true true false)
+                                (String.String (Ascii.Ascii true false false true false true true false)
+                                   (String.String (Ascii.Ascii true true true false false true true false)
+                                      (String.String (Ascii.Ascii true false false true false true true false)
+                                         (String.String (Ascii.Ascii false true true true false true true false)
+                                            String.EmptyString))))))))))));
+        (String.String (Ascii.Ascii true true false false true true true false)
+           (String.String (Ascii.Ascii true true true true false true true false)
+              (String.String (Ascii.Ascii true false true false true true true false)
+                 (String.String (Ascii.Ascii false true false false true true true false)
+                    (String.String (Ascii.Ascii true true false false false true true false)
+                       (String.String (Ascii.Ascii true false true false false true true false) String.EmptyString))))),
+         String.String (Ascii.Ascii true true false false true true true false)
+           (String.String (Ascii.Ascii true true true true false true true false)
+              (String.String (Ascii.Ascii true false true false true true true false)
+                 (String.String (Ascii.Ascii false true false false true true true false)
+                    (String.String (Ascii.Ascii true true false false false true true false)
+                       (String.String (Ascii.Ascii true false true false false true true false)
+                          (String.String (Ascii.Ascii true true false false true true true false) String.EmptyString)))))));
+        (String.String (Ascii.Ascii true true true false false true true false)
+           (String.String (Ascii.Ascii false true false false true true true false)
+              (String.String (Ascii.Ascii true false false false false true true false)
+                 (String.String (Ascii.Ascii false false true false false true true false)
+                    (String.String (Ascii.Ascii true false false true false true true false)
+                       (String.String (Ascii.Ascii true false true false false true true false)
+                          (String.String (Ascii.Ascii false true true true false true true false)
+                             (String.String (Ascii.Ascii false false true false true true true false)
+                                String.EmptyString))))))),
+         String.String (Ascii.Ascii false false true false true true true false)
+           (String.String (Ascii.Ascii false false true false true true true false)
+              (String.String (Ascii.Ascii true true true false false true true false)
+                 (String.String (Ascii.Ascii false true false false true true true false)
+                    (String.String (Ascii.Ascii true false false false false true true false)
+                       (String.String (Ascii.Ascii false false true false false true true false)
+                          (String.String (Ascii.Ascii false false false false false true false false)
+                             (String.String (Ascii.Ascii true false false true false true true false)
+                                (String.String (Ascii.Ascii false true true false false true true false)
+                                   (String.String (Ascii.Ascii false false false false false true false false)
+                                      (String.String (Ascii.Ascii false true false false true true true false)
+                                         (String.String (Ascii.Ascii true false true false false true true false)
+                                            (String.String (Ascii.Ascii false false true false true true true false)
+                                               (String.String (Ascii.Ascii true false true false true true true false)
+                                                  (String.String
+                                                     (Ascii.Ascii false true false false true true true false)
+                                                     (String.String
+                                                        (Ascii.Ascii false true true true false true true false)
+                                                        (String.String
+                                                           (Ascii.Ascii true true true true true false true false)
+                                                           (String.String
+                                                              (Ascii.Ascii true true true false false true true false)
+                                                              (String.String
+                                                                 (Ascii.Ascii false true false false true true true
+                                                                    false)
+                                                                 (String.String
+                                                                    (Ascii.Ascii true false false false false true true
+                                                                       false)
+                                                                    (String.String
+                                                                       (Ascii.Ascii false false true false false true
+                                                                          true false)
+                                                                       (String.String
+                                                                          (Ascii.Ascii true false false true false true
+                                                                             true false)
+                                                                          (String.String
+                                                                             (Ascii.Ascii true false true false false
+                                                                                true true false)
+                                                                             (String.String
+                                                                                (Ascii.Ascii false true true true false
+                                                                                   true true false)
+                                                                                (String.String
+                                                                                   (Ascii.Ascii false false true false
+                                                                                      true true true false)
+                                                                                   (String.String
+                                                                                      (Ascii.Ascii false false false
+                                                                                         false false true false false)
+                                                                                      (String.String
+                                                                                         (Ascii.Ascii true false true
+                                                                                          false false true true false)
+                                                                                         (String.String
+                                                                                          (Ascii.Ascii false false true
+                                                                                          true false true true false)
+                                                                                          (String.String
+                                                                                          (Ascii.Ascii true true false
+                                                                                          false true true true false)
+                                                                                          (String.String
+                                                                                          (Ascii.Ascii true false true
+                                                                                          false false true true false)
+                                                                                          (String.String
+                                                                                          (Ascii.Ascii false false
+                                                                                          false false false true false
+                                                                                          false)
+                                                                                          (String.String
+                                                                                          (Ascii.Ascii false true true
+                                                                                          true false false true false)
+                                                                                          (String.String
+                                                                                          (Ascii.Ascii true true true
+                                                                                          true false true true false)
+                                                                                          (String.String
+                                                                                          (Ascii.Ascii false true true
+                                                                                          true false true true false)
+                                                                                          (String.String
+                                                                                          (Ascii.Ascii true false true
+                                                                                          false false true true false)
+                                                                                          String.EmptyString)))))))))))))))))))))))))))))))))));
+        (String.String (Ascii.Ascii false true true false true true true false)
+           (String.String (Ascii.Ascii false true false true true true true false)
+              (String.String (Ascii.Ascii true false true false false true true false)
+                 (String.String (Ascii.Ascii false true false false true true true false)
+                    (String.String (Ascii.Ascii true true true true false true true false) String.EmptyString)))),
+         String.String (Ascii.Ascii false true true false true true true false)
+           (String.String (Ascii.Ascii false true false true true true true false)
+              (String.String (Ascii.Ascii true false true false false true true false)
+                 (String.String (Ascii.Ascii false true false false true true true false)
+                    (String.String (Ascii.Ascii true true true true false true true false) String.EmptyString)))))] /\
+       ApiGen.solve_2d_result_multi =
+       [(String.String (Ascii.Ascii true true true false false true true false)
+           (String.String (Ascii.Ascii false true false false true true true false)
+              (String.String (Ascii.Ascii true false false true false true true false)
+                 (String.String (Ascii.Ascii false false true false false true true false) String.EmptyString))),
+         String.String (Ascii.Ascii false false true false true true true false)
+           (String.String (Ascii.Ascii false false true false true true true false)
+              (String.String (Ascii.Ascii true true false true true false true false)
+                 (String.String (Ascii.Ascii true false false true false true true false)
+                    (String.String (Ascii.Ascii true false true true true false true false) String.EmptyString)))));
+        (String.String (Ascii.Ascii true true true false false true true false)
+           (String.String (Ascii.Ascii false true false false true true true false)
+              (String.String (Ascii.Ascii true false false true false true true false)
+                 (String.String (Ascii.Ascii false false true false false true true false)
+                    (String.String (Ascii.Ascii true true false false true true true false)
+                       (String.String (Ascii.Ascii true false false true false true true false)
+                          (String.String (Ascii.Ascii false true false true true true true false)
+                             (String.String (Ascii.Ascii true false true false false true true false)
+                                String.EmptyString))))))),
+         String.String (Ascii.Ascii true true false false true true true false)
+           (String.String (Ascii.Ascii true false true false false true true false)
+              (String.String (Ascii.Ascii false false true true false true true false)
+                 (String.String (Ascii.Ascii false true true false false true true false)
+                    (String.String (Ascii.Ascii false true true true false true false false)
+                       (String.String (Ascii.Ascii true true true true true false true false)
+                          (String.String (Ascii.Ascii true true true false false true true false)
+                             (String.String (Ascii.Ascii false true false false true true true false)
+                                (String.String (Ascii.Ascii true false false true false true true false)
+                                   (String.String (Ascii.Ascii false false true false false true true false)
+                                      (String.String (Ascii.Ascii true true false false true true true false)
+                                         (String.String (Ascii.Ascii true false false true false true true false)
+                                            (String.String (Ascii.Ascii false true false true true true true false)
+                                               (String.String (Ascii.Ascii true false true false false true true false)
+                                                  String.EmptyString))))))))))))));
+        (String.String (Ascii.Ascii true true true true false true true false)
+           (String.String (Ascii.Ascii false true false false true true true false)
+              (String.String (Ascii.Ascii true false false true false true true false)
+                 (String.String (Ascii.Ascii true true true false false true true false)
+                    (String.String (Ascii.Ascii true false false true false true true false)
+                       (String.String (Ascii.Ascii false true true true false true true false) String.EmptyString))))),
+         String.String (Ascii.Ascii true true false false true true true false)
+           (String.String (Ascii.Ascii true false true false false true true false)
+              (String.String (Ascii.Ascii false false true true false true true false)
+                 (String.String (Ascii.Ascii false true true false false true true false)
+                    (String.String (Ascii.Ascii false true true true false true false false)
+                       (String.String (Ascii.Ascii true true true true true false true false)
+                          (String.String (Ascii.Ascii true true true true false true true false)
+                             (String.String (Ascii.Ascii false true false false true true true false)
+                                (String.String (Ascii.Ascii true false false true false true true false)
+                                   (String.String (Ascii.Ascii true true true false false true true false)
+                                      (String.String (Ascii.Ascii true false false true false true true false)
+                                         (String.String (Ascii.Ascii false true true true false true true false)
+                                            String.EmptyString))))))))))));
+        (String.String (Ascii.Ascii true true false false true true true false)
+           (String.String (Ascii.Ascii true true true true false true true false)
+              (String.String (Ascii.Ascii true false true false true true true false)
+                 (String.String (Ascii.Ascii false true false false true true true false)
+                    (String.String (Ascii.Ascii true true false false false true true false)
+                       (String.String (Ascii.Ascii true false true false false true true false) String.EmptyString))))),
+         String.String (Ascii.Ascii true true false false true true true false)
+           (String.String (Ascii.Ascii true true true true false true true false)
+              (String.String (Ascii.Ascii true false true false true true true false)
+                 (String.String (Ascii.Ascii false true false false true true true false)
+                    (String.String (Ascii.Ascii true true false false false true true false)
+                       (String.String (Ascii.Ascii true false true false false true true false)
+                          (String.String (Ascii.Ascii true true false false true true true false)
+                             (String.String (Ascii.Ascii true true false true true false true false)
+                                (String.String (Ascii.Ascii true false false true false true true false)
+                                   (String.String (Ascii.Ascii true false true true true false true false)
+                                      String.EmptyString))))))))));
+        (String.String (Ascii.Ascii true true true false false true true false)
+           (String.String (Ascii.Ascii false true false false true true true false)
+              (String.String (Ascii.Ascii true false false false false true true false)
+                 (String.String (Ascii.Ascii false false true false false true true false)
+                    (String.String (Ascii.Ascii true false false true false true true false)
+                       (String.String (Ascii.Ascii true false true false false true true false)
+                          (String.String (Ascii.Ascii false true true true false true true false)
+                             (String.String (Ascii.Ascii false false true false true true true false)
+                                String.EmptyString))))))),
+         String.String (Ascii.Ascii false false true false true true true false)
+           (String.String (Ascii.Ascii false false true false true true true false)
+              (String.String (Ascii.Ascii true true true false false true true false)
+                 (String.String (Ascii.Ascii false true false false true true true false)
+                    (String.String (Ascii.Ascii true false false false false true true false)
+                       (String.String (Ascii.Ascii false false true false false true true false)
+                          (String.String (Ascii.Ascii true true false true true false true false)
+                             (String.String (Ascii.Ascii true false false true false true true false)
+                                (String.String (Ascii.Ascii true false true true true false true false)
+                                   (String.String (Ascii.Ascii false false false false false true false false)
+                                      (String.String (Ascii.Ascii true false false true false true true false)
+                                         (String.String (Ascii.Ascii false true true false false true true false)
+                                            (String.String (Ascii.Ascii false false false false false true false false)
+                                               (String.String (Ascii.Ascii false true false false true true true false)
+                                                  (String.String
+                                                     (Ascii.Ascii true false true false false true true false)
+                                                     (String.String
+                                                        (Ascii.Ascii false false true false true true true false)
+                                                        (String.String
+                                                           (Ascii.Ascii true false true false true true true false)
+                                                           (String.String
+                                                              (Ascii.Ascii false true false false true true true false)
+                                                              (String.String
+                                                                 (Ascii.Ascii false true true true false true true
+                                                                    false)
+                                                                 (String.String
+                                                                    (Ascii.Ascii true true true true true false true
+                                                                       false)
+                                                                    (String.String
+                                                                       (Ascii.Ascii true true true false false true
+                                                                          true false)
+                                                                       (String.String
+                                                                          (Ascii.Ascii false true false false true true
+                                                                             true false)
+                                                                          (String.String
+                                                                             (Ascii.Ascii true false false false false
+                                                                                true true false)
+                                                                             (String.String
+                                                                                (Ascii.Ascii false false true false
+                                                                                   false true true false)
+                                                                                (String.String
+                                                                                   (Ascii.Ascii true false false true
+                                                                                      false true true false)
+                                                                                   (String.String
+                                                                                      (Ascii.Ascii true false true
+                                                                                         false false true true false)
+                                                                                      (String.String
+                                                                                         (Ascii.Ascii false true true
+                                                                                          true false true true false)
+                                                                                         (String.String
+                                                                                          (Ascii.Ascii false false true
+                                                                                          false true true true false)
+                                                                                          (String.String
+                                                                                          (Ascii.Ascii false false
+                                                                                          false false false true false
+                                                                                          false)
+                                                                                          (String.String
+                                                                                          (Ascii.Ascii true false true
+                                                                                          false false true true false)
+                                                                                          (String.String
+                                                                                          (Ascii.Ascii false false true
+                                                                                          true false true true false)
+                                                                                          (String.String
+                                                                                          (Ascii.Ascii true true false
+                                                                                          false true true true false)
+                                                                                          (String.String
+                                                                                          (Ascii.Ascii true false true
+                                                                                          false false true true false)
+                                                                                          (String.String
+                                                                                          (Ascii.Ascii false false
+                                                                                          false false false true false
+                                                                                          false)
+                                                                                          (String.String
+                                                                                          (Ascii.Ascii false true true
+                                                                                          true false false true false)
+                                                                                          (String.String
+                                                                                          (Ascii.Ascii true true true
+                                                                                          true false true true false)
+                                                                                          (String.String
+                                                                                          (Ascii.Ascii false true true
+                                                                                          true false true true false)
+                                                                                          (String.String
+                                                                                          (Ascii.Ascii true false true
+                                                                                          false false true true false)
+                                                                                          String.EmptyString))))))))))))))))))))))))))))))))))))));
+        (String.String (Ascii.Ascii false true true false true true true false)
+           (String.String (Ascii.Ascii false true false true true true true false)
+              (String.String (Ascii.Ascii true false true false false true true false)
+                 (String.String (Ascii.Ascii false true false false true true true false)
+                    (String.String (Ascii.Ascii true true true true false true true false) String.EmptyString)))),
+         String.String (Ascii.Ascii false true true false true true true false)
+           (String.String (Ascii.Ascii false true false true true true true false)
+              (String.String (Ascii.Ascii true false true false false true true false)
+                 (String.String (Ascii.Ascii false true false false true true true false)
+                    (String.String (Ascii.Ascii true true true true false true true false)
+                       (String.String (Ascii.Ascii true true false true true false true false)
+                          (String.String (Ascii.Ascii true false false true false true true false)
+                             (String.String (Ascii.Ascii true false true true true false true false) String.EmptyString))))))))] /\
+       map fst ApiGen.solve_2d_result_single = snd ApiGen.solve_2d_result_ctor /\
+       map fst ApiGen.solve_2d_result_multi = snd ApiGen.solve_2d_result_ctor.
+Proof. exact @ApiGenEq.gen_solve_2d_result. Qed.
+
+(* 3D *)
+Theorem C06_solve_result_carries_absolute_source_and_origin_3d :
+  ApiGen.solve_3d_targets =
+       [String.String (Ascii.Ascii false false true false true true true false)
+          (String.String (Ascii.Ascii false false true false true true true false) String.EmptyString);
+        String.String (Ascii.Ascii false false true false true true true false)
+          (String.String (Ascii.Ascii false false true false true true true false)
+             (String.String (Ascii.Ascii true true true false false true true false)
+                (String.String (Ascii.Ascii false true false false true true true false)
+                   (String.String (Ascii.Ascii true false false false false true true false)
+                      (String.String (Ascii.Ascii false false true false false true true false) String.EmptyString)))));
+        String.String (Ascii.Ascii false true true false true true true false)
+          (String.String (Ascii.Ascii false true false true true true true false)
+             (String.String (Ascii.Ascii true false true false false true true false)
+                (String.String (Ascii.Ascii false true false false true true true false)
+                   (String.String (Ascii.Ascii true true true true false true true false) String.EmptyString))))] /\
+       ApiGen.solve_3d_result_ctor =
+       (String.String (Ascii.Ascii false false true false true false true false)
+          (String.String (Ascii.Ascii false true false false true true true false)
+             (String.String (Ascii.Ascii true false false false false true true false)
+                (String.String (Ascii.Ascii false true true false true true true false)
+                   (String.String (Ascii.Ascii true false true false false true true false)
+                      (String.String (Ascii.Ascii false false true true false true true false)
+                         (String.String (Ascii.Ascii false false true false true true true false)
+                            (String.String (Ascii.Ascii true false false true false true true false)
+                               (String.String (Ascii.Ascii true false true true false true true false)
+                                  (String.String (Ascii.Ascii true false true false false true true false)
+                                     (String.String (Ascii.Ascii true true true false false false true false)
+                                        (String.String (Ascii.Ascii false true false false true true true false)
+                                           (String.String (Ascii.Ascii true false false true false true true false)
+                                              (String.String (Ascii.Ascii false false true false false true true false)
+                                                 (String.String
+                                                    (Ascii.Ascii true true false false true true false false)
+                                                    (String.String
+                                                       (Ascii.Ascii false false true false false false true false)
+                                                       String.EmptyString))))))))))))))),
+        [String.String (Ascii.Ascii true true true false false true true false)
+           (String.String (Ascii.Ascii false true false false true true true false)
+              (String.String (Ascii.Ascii true false false true false true true false)
+                 (String.String (Ascii.Ascii false false true false false true true false) String.EmptyString)));
+         String.String (Ascii.Ascii true true true false false true true false)
+           (String.String (Ascii.Ascii false true false false true true true false)
+              (String.String (Ascii.Ascii true false false true false true true false)
+                 (String.String (Ascii.Ascii false false true false false true true false)
+                    (String.String (Ascii.Ascii true true false false true true true false)
+                       (String.String (Ascii.Ascii true false false true false true true false)
+                          (String.String (Ascii.Ascii false true false true true true true false)
+                             (String.String (Ascii.Ascii true false true false false true true false)
+                                String.EmptyString)))))));
+         String.String (Ascii.Ascii true true true true false true true false)
+           (String.String (Ascii.Ascii false true false false true true true false)
+              (String.String (Ascii.Ascii true false false true false true true false)
+                 (String.String (Ascii.Ascii true true true false false true true false)
+                    (String.String (Ascii.Ascii true false false true false true true false)
+                       (String.String (Ascii.Ascii false true true true false true true false) String.EmptyString)))));
+         String.String (Ascii.Ascii true true false false true true true false)
+           (String.String (Ascii.Ascii true true true true false true true false)
+              (String.String (Ascii.Ascii true false true false true true true false)
+                 (String.String (Ascii.Ascii false true false false true true true false)
+                    (String.String (Ascii.Ascii true true false false false true true false)
+                       (String.String (Ascii.Ascii true false true false false true true false) String.EmptyString)))));
+         String.String (Ascii.Ascii true true true false false true true false)
+           (String.String (Ascii.Ascii false true false false true true true false)
+              (String.String (Ascii.Ascii true false false false false true true false)
+                 (String.String (Ascii.Ascii false false true false false true true false)
+                    (String.String (Ascii.Ascii true false false true false true true false)
+                       (String.String (Ascii.Ascii true false true false false true true false)
+                          (String.String (Ascii.Ascii false true true true false true true false)
+                             (String.String (Ascii.Ascii false false true false true true true false)
+                                String.EmptyString)))))));
+         String.String (Ascii.Ascii false true true false true true true false)
+           (String.String (Ascii.Ascii false true false true true true true false)
+              (String.String (Ascii.Ascii true false true false false true true false)
+                 (String.String (Ascii.Ascii false true false false true true true false)
+                    (String.String (Ascii.Ascii true true true true false true true false) String.EmptyString))))]) /\
+       ApiGen.solve_3d_result_single =
+       [(String.String (Ascii.Ascii true true true false false true true false)
+           (String.String (Ascii.Ascii false true false false true true true false)
+              (String.String (Ascii.Ascii true false false true false true true false)
+                 (String.String (Ascii.Ascii false false true false false true true false) String.EmptyString))),
+         String.String (Ascii.Ascii false false true false true true true false)
+           (String.String (Ascii.Ascii false false true false true true true false) String.EmptyString));
+        (String.String (Ascii.Ascii true true true false false true true false)
+           (String.String (Ascii.Ascii false true false false true true true false)
+              (String.String (Ascii.Ascii true false false true false true true false)
+                 (String.String (Ascii.Ascii false false true false false true true false)
+                    (String.String (Ascii.Ascii true true false false true true true false)
+                       (String.String (Ascii.Ascii true false false true false true true false)
+                          (String.String (Ascii.Ascii false true false true true true true false)
+                             (String.String (Ascii.Ascii true false true false false true true false)
+                                String.EmptyString))))))),
+         String.String (Ascii.Ascii true true false false true true true false)
+           (String.String (Ascii.Ascii true false true false false true true false)
+              (String.String (Ascii.Ascii false false true true false true true false)
+                 (String.String (Ascii.Ascii false true true false false true true false)
+                    (String.String (Ascii.Ascii false true true true false true false false)
+                       (String.String (Ascii.Ascii true true true true true false true false)
+                          (String.String (Ascii.Ascii true true true false false true true false)
+                             (String.String (Ascii.Ascii false true false false true true true false)
+                                (String.String (Ascii.Ascii true false false true false true true false)
+                                   (String.String (Ascii.Ascii false false true false false true true false)
+                                      (String.String (Ascii.Ascii true true false false true true true false)
+                                         (String.String (Ascii.Ascii true false false true false true true false)
+                                            (String.String (Ascii.Ascii false true false true true true true false)
+                                               (String.String (Ascii.Ascii true false true false false true true false)
+                                                  String.EmptyString))))))))))))));
+        (String.String (Ascii.Ascii true true true true false true true false)
+           (String.String (Ascii.Ascii false true false false true true true false)
+              (String.String (Ascii.Ascii true false false true false true true false)
+                 (String.String (Ascii.Ascii true true true false false true true false)
+                    (String.String (Ascii.Ascii true false false true false true true false)
+                       (String.String (Ascii.Ascii false true true true false true true false) String.EmptyString))))),
+         String.String (Ascii.Ascii true true false false true true true false)
+           (String.String (Ascii.Ascii true false true false false true true false)
+              (String.String (Ascii.Ascii false false true true false true true false)
+                 (String.String (Ascii.Ascii false true true false false true true false)
+                    (String.String (Ascii.Ascii false true true true false true false false)
+                       (String.String (Ascii.Ascii true true true true true false true false)
+                          (String.String (Ascii.Ascii true true true true false true true false)
+                             (String.String (Ascii.Ascii false true false false true true true false)
+                                (String.String (Ascii.Ascii true false false true false true true false)
+                                   (String.String (Ascii.Ascii true true true false false true true false)
+                                      (String.String (Ascii.Ascii true false false true false true true false)
+                                         (String.String (Ascii.Ascii false true true true false true true false)
+                                            String.EmptyString))))))))))));
+        (String.String (Ascii.Ascii true true false false true true true false)
+           (String.String (Ascii.Ascii true true true true false true true false)
+              (String.String (Ascii.Ascii true false true false true true true false)
+                 (String.String (Ascii.Ascii false true false false true true true false)
+                    (String.String (Ascii.Ascii true true false false false true true false)
+                       (String.String (Ascii.Ascii true false true false false true true false) String.EmptyString))))),
+         String.String (Ascii.Ascii true true false false true true true false)
+           (String.String (Ascii.Ascii true true true true false true true false)
+              (String.String (Ascii.Ascii true false true false true true true false)
+                 (String.String (Ascii.Ascii false true false false true true true false)
+                    (String.String (Ascii.Ascii true true false false false true true false)
+                       (String.String (Ascii.Ascii true false true false false true true false)
+                          (String.String (Ascii.Ascii true true false false true true true false) String.EmptyString)))))));
+        (String.String (Ascii.Ascii true true true false false true true false)
+           (String.String (Ascii.Ascii false true false false true true true false)
+              (String.String (Ascii.Ascii true false false false false true true false)
+                 (String.String (Ascii.Ascii false false true false false true true false)
+                    (String.String (Ascii.Ascii true false false true false true true false)
+                       (String.String (Ascii.Ascii true false true false false true true false)
+                          (String.String (Ascii.Ascii false true true true false true true false)
+                             (String.String (Ascii.Ascii false false true false true true true false)
+                                String.EmptyString))))))),
+         String.String (Ascii.Ascii false false true false true true true false)
+           (String.String (Ascii.Ascii false false true false true true true false)
+              (String.String (Ascii.Ascii true true true false false true true false)
+                 (String.String (Ascii.Ascii false true false false true true true false)
+                    (String.String (Ascii.Ascii true false false false false true true false)
+                       (String.String (Ascii.Ascii false false true false false true true false)
+                          (String.String (Ascii.Ascii false false false false false true false false)
+                             (String.String (Ascii.Ascii true false false true false true true false)
+                                (String.String (Ascii.Ascii false true true false false true true false)
+                                   (String.String (Ascii.Ascii false false false false false true false false)
+                                      (String.String (Ascii.Ascii false true false false true true true false)
+                                         (String.String (Ascii.Ascii true false true false false true true false)
+                                            (String.String (Ascii.Ascii false false true false true true true false)
+                                               (String.String (Ascii.Ascii true false true false true true true false)
+                                                  (String.String
+                                                     (Ascii.Ascii false true false false true true true false)
+                                                     (String.String
+                                                        (Ascii.Ascii false true true true false true true false)
+                                                        (String.String
+                                                           (Ascii.Ascii true true true true true false true false)
+                                                           (String.String
+                                                              (Ascii.Ascii true true true false false true true false)
+                                                              (String.String
+                                                                 (Ascii.Ascii false true false false true true true
+                                                                    false)
+                                                                 (String.String
+                                                                    (Ascii.Ascii true false false false false true true
+                                                                       false)
+                                                                    (String.String
+                                                                       (Ascii.Ascii false false true false false true
+                                                                          true false)
+                                                                       (String.String
+                                                                          (Ascii.Ascii true false false true false true
+                                                                             true false)
+                                                                          (String.String
+                                                                             (Ascii.Ascii true false true false false
+                                                                                true true false)
+                                                                             (String.String
+                                                                                (Ascii.Ascii false true true true false
+                                                                                   true true false)
+                                                                                (String.String
+                                                                                   (Ascii.Ascii false false true false
+                                                                                      true true true false)
+                                                                                   (String.String
+                                                                                      (Ascii.Ascii false false false
+                                                                                         false false true false false)
+                                                                                      (String.String
+                                                                                         (Ascii.Ascii true false true
+                                                                                          false false true true false)
+                                                                                         (String.String
+                                                                                          (Ascii.Ascii false false true
+                                                                                          true false true true false)
+                                                                                          (String.String
+                                                                                          (Ascii.Ascii true true false
+                                                                                          false true true true false)
+                                                                                          (String.String
+                                                                                          (Ascii.Ascii true false true
+                                                                                          false false true true false)
+                                                                                          (String.String
+                                                                                          (Ascii.Ascii false false
+                                                                                          false false false true false
+                                                                                          false)
+                                                                                          (String.String
+                                                                                          (Ascii.Ascii false true true
+                                                                                          true false false true false)
+                                                                                          (String.String
+                                                                                          (Ascii.Ascii true true true
+                                                                                          true false true true false)
+                                                                                          (String.String
+                                                                                          (Ascii.Ascii false true true
+                                                                                          true false true true false)
+                                                                                          (String.String
+                                                                                          (Ascii.Ascii true false true
+                                                                                          false false true true false)
+                                                                                          String.EmptyString)))))))))))))))))))))))))))))))))));
+        (String.String (Ascii.Ascii false true true false true true true false)
+           (String.String (Ascii.Ascii false true false true true true true false)
+              (String.String (Ascii.Ascii true false true false false true true false)
+                 (String.String (Ascii.Ascii false true false false true true true false)
+                    (String.String (Ascii.Ascii true true true true false true true false) String.EmptyString)))),
+         String.String (Ascii.Ascii false true true false true true true false)
+           (String.String (Ascii.Ascii false true false true true true true false)
+              (String.String (Ascii.Ascii true false true false false true true false)
+                 (String.String (Ascii.Ascii false true false false true true true false)
+                    (String.String (Ascii.Ascii true true true true false true true false) String.EmptyString)))))] /\
+       ApiGen.solve_3d_result_multi =
+       [(String.String (Ascii.Ascii true true true false false true true false)
+           (String.String (Ascii.Ascii false true false false true true true false)
+              (String.String (Ascii.Ascii true false false true false true true false)
+                 (String.String (Ascii.Ascii false false true false false true true false) String.EmptyString))),
+         String.String (Ascii.Ascii false false true false true true true false)
+           (String.String (Ascii.Ascii false false true false true true true false)
+              (String.String (Ascii.Ascii true true false true true false true false)
+                 (String.String (Ascii.Ascii true false false true false true true false)
+                    (String.String (Ascii.Ascii true false true true true false true false) String.EmptyString)))));
+        (String.String (Ascii.Ascii true true true false false true true false)
+           (String.String (Ascii.Ascii false true false false true true true false)
+              (String.String (Ascii.Ascii true false false true false true true false)
+                 (String.String (Ascii.Ascii false false true false false true true false)
+                    (String.String (Ascii.Ascii true true false false true true true false)
+                       (String.String (Ascii.Ascii true false false true false true true false)
+                          (String.String (Ascii.Ascii false true false true true true true false)
+                             (String.String (Ascii.Ascii true false true false false true true false)
+                                String.EmptyString))))))),
+         String.String (Ascii.Ascii true true false false true true true false)
+           (String.String (Ascii.Ascii true false true false false true true false)
+              (String.String (Ascii.Ascii false false true true false true true false)
+                 (String.String (Ascii.Ascii false true true false false true true false)
+                    (String.String (Ascii.Ascii false true true true false true false false)
+                       (String.String (Ascii.Ascii true true true true true false true false)
+                          (String.String (Ascii.Ascii true true true false false true true false)
+                             (String.String (Ascii.Ascii false true false false true true true false)
+                                (String.String (Ascii.Ascii true false false true false true true false)
+                                   (String.String (Ascii.Ascii false false true false false true true false)
+                                      (String.String (Ascii.Ascii true true false false true true true false)
+                                         (String.String (Ascii.Ascii true false false true false true true false)
+                                            (String.String (Ascii.Ascii false true false true true true true false)
+                                               (String.String (Ascii.Ascii true false true false false true true false)
+                                                  String.EmptyString))))))))))))));
+        (String.String (Ascii.Ascii true true true true false true true false)
+           (String.String (Ascii.Ascii false true false false true true true false)
+              (String.String (Ascii.Ascii true false false true false true true false)
+                 (String.String (Ascii.Ascii true true true false false true true false)
+                    (String.String (Ascii.Ascii true false false true false true true false)
+                       (String.String (Ascii.Ascii false true true true false true true false) String.EmptyString))))),
+         String.String (Ascii.Ascii true true false false true true true false)
+           (String.String (Ascii.Ascii true false true false false true true false)
+              (String.String (Ascii.Ascii false false true true false true true false)
+                 (String.String (Ascii.Ascii false true true false false true true false)
+                    (String.String (Ascii.Ascii false true true true false true false false)
+                       (String.String (Ascii.Ascii true true true true true false true false)
+                          (String.String (Ascii.Ascii true true true true false true true false)
+                             (String.String (Ascii.Ascii false true false false true true true false)
+                                (String.String (Ascii.Ascii true false false true false true true false)
+                                   (String.String (Ascii.Ascii true true true false false true true false)
+                                      (String.String (Ascii.Ascii true false false true false true true false)
+                                         (String.String (Ascii.Ascii false true true true false true true false)
+                                            String.EmptyString))))))))))));
+        (String.String (Ascii.Ascii true true false false true true true false)
+           (String.String (Ascii.Ascii true true true true false true true false)
+              (String.String (Ascii.Ascii true false true false true true true false)
+                 (String.String (Ascii.Ascii false true false false true true true false)
+                    (String.String (Ascii.Ascii true true false false false true true false)
+                       (String.String (Ascii.Ascii true false true false false true true false) String.EmptyString))))),
+         String.String (Ascii.Ascii true true false false true true true false)
+           (String.String (Ascii.Ascii true true true true false true true false)
+              (String.String (Ascii.Ascii true false true false true true true false)
+                 (String.String (Ascii.Ascii false true false false true true true false)
+                    (String.String (Ascii.Ascii true true false false false true true false)
+                       (String.String (Ascii.Ascii true false true false false true true false)
+                          (String.String (Ascii.Ascii true true false false true true true false)
+                             (String.String (Ascii.Ascii true true false true true false true false)
+                                (String.String (Ascii.Ascii true false false true false true true false)
+                                   (String.String (Ascii.Ascii true false true true true false true false)
+                                      String.EmptyString))))))))));
+        (String.String (Ascii.Ascii true true true false false true true false)
+           (String.String (Ascii.Ascii false true false false true true true false)
+              (String.String (Ascii.Ascii true false false false false true true false)
+                 (String.String (Ascii.Ascii false false true false false true true false)
+                    (String.String (Ascii.Ascii true false false true false true true false)
+                       (String.String (Ascii.Ascii true false true false false true true false)
+                          (String.String (Ascii.Ascii false true true true false true true false)
+                             (String.String (Ascii.Ascii false false true false true true true false)
+                                String.EmptyString))))))),
+         String.String (Ascii.Ascii false false true false true true true false)
+           (String.String (Ascii.Ascii false false true false true true true false)
+              (String.String (Ascii.Ascii true true true false false true true false)
+                 (String.String (Ascii.Ascii false true false false true true true false)
+                    (String.String (Ascii.Ascii true false false false false true true false)
+                       (String.String (Ascii.Ascii false false true false false true true false)
+                          (String.String (Ascii.Ascii true true false true true false true false)
+                             (String.String (Ascii.Ascii true false false true false true true false)
+                                (String.String (Ascii.Ascii true false true true true false true false)
+                                   (String.String (Ascii.Ascii false false false false false true false false)
+                                      (String.String (Ascii.Ascii true false false true false true true false)
+                                         (String.String (Ascii.Ascii false true true false false true true false)
+                                            (String.String (Ascii.Ascii false false false false false true false false)
+                                               (String.String (Ascii.Ascii false true false false true true true false)
+                                                  (String.String
+                                                     (Ascii.Ascii true false true false false true true false)
+                                                     (String.String
+                                                        (Ascii.Ascii false false true false true true true false)
+                                                        (String.String
+                                                           (Ascii.Ascii true false true false true true true false)
+                                                           (String.String
+                                                              (Ascii.Ascii false true false false true true true false)
+                                                              (String.String
+                                                                 (Ascii.Ascii false true true true false true true
+                                                                    false)
+                                                                 (String.String
+                                                                    (Ascii.Ascii true true true true true false true
+                                                                       false)
+                                                                    (String.String
+                                                                       (Ascii.Ascii true true true false false true
+                                                                          true false)
+                                                                       (String.String
+                                                                          (Ascii.Ascii false true false false true true
+                                                                             true false)
+                                                                          (String.String
+                                                                             (Ascii.Ascii true false false false false
+                                                                                true true false)
+                                                                             (String.String
+                                                                                (Ascii.Ascii false false true false
+                                                                                   false true true false)
+                                                                                (String.String
+                                                                                   (Ascii.Ascii true false false true
+                                                                                      false true true false)
+                                                                                   (String.String
+                                                                                      (Ascii.Ascii true false true
+                                                                                         false false true true false)
+                                                                                      (String.String
+                                                                                         (Ascii.Ascii false true true
+                                                                                          true false true true false)
+                                                                                         (String.String
+                                                                                          (Ascii.Ascii false false true
+                                                                                          false true true true false)
+                                                                                          (String.String
+                                                                                          (Ascii.Ascii false false
+                                                                                          false false false true false
+                                                                                          false)
+                                                                                          (String.String
+                                                                                          (Ascii.Ascii true false true
+                                                                                          false false true true false)
+                                                                                          (String.String
+                                                                                          (Ascii.Ascii false false true
+                                                                                          true false true true false)
+                                                                                          (String.String
+                                                                                          (Ascii.Ascii true true false
+                                                                                          false true true true false)
+                                                                                          (String.String
+                                                                                          (Ascii.Ascii true false true
+                                                                                          false false true true false)
+                                                                                          (String.String
+                                                                                          (Ascii.Ascii false false
+                                                                                          false false false true false
+                                                                                          false)
+                                                                                          (String.String
+                                                                                          (Ascii.Ascii false true true
+                                                                                          true false false true false)
+                                                                                          (String.String
+                                                                                          (Ascii.Ascii true true true
+                                                                                          true false true true false)
+                                                                                          (String.String
+                                                                                          (Ascii.Ascii false true true
+                                                                                          true false true true false)
+                                                                                          (String.String
+                                                                                          (Ascii.Ascii true false true
+                                                                                          false false true true false)
+                                                                                          String.EmptyString))))))))))))))))))))))))))))))))))))));
+        (String.String (Ascii.Ascii false true true false true true true false)
+           (String.String (Ascii.Ascii false true false true true true true false)
+              (String.String (Ascii.Ascii true false true false false true true false)
+                 (String.String (Ascii.Ascii false true false false true true true false)
+                    (String.String (Ascii.Ascii true true true true false true true false) String.EmptyString)))),
+         String.String (Ascii.Ascii false true true false true true true false)
+           (String.String (Ascii.Ascii false true false true true true true false)
+              (String.String (Ascii.Ascii true false true false false true true false)
+                 (String.String (Ascii.Ascii false true false false true true true false)
+                    (String.String (Ascii.Ascii true true true true false true true false)
+                       (String.String (Ascii.Ascii true true false true true false true false)
+                          (String.String (Ascii.Ascii true false false true false true true false)
+                             (String.String (Ascii.Ascii true false true true true false true false) String.EmptyString))))))))] /\
+       map fst ApiGen.solve_3d_result_single = snd ApiGen.solve_3d_result_ctor /\
+       map fst ApiGen.solve_3d_result_multi = snd ApiGen.solve_3d_result_ctor.
+Proof. exact @ApiGenEq.gen_solve_3d_result. Qed.
+
+(* axes extracted from _base.py *)
+Theorem C06_node_axes_from_source_2d_z :
+  forall (T : Type) (N : Num T) (origin gridsize : list T) (shape : list Z),
+       ApiGen.axis_2d_zaxis origin gridsize shape =
+       axis_nodes (nth 0 origin (nofZ 0)) (nth 0 gridsize (nofZ 0)) (nth 0 shape 0%Z).
+Proof. exact @ApiGenEq.gen_axis_2d_zaxis_eq_gen. Qed.
+
+(* 3D, third axis *)
+Theorem C06_node_axes_from_source_3d_y :
+  forall (T : Type) (N : Num T) (origin gridsize : list T) (shape : list Z),
+       ApiGen.axis_3d_yaxis origin gridsize shape =
+       axis_nodes (nth 2 origin (nofZ 0)) (nth 2 gridsize (nofZ 0)) (nth 2 shape 0%Z).
+Proof. exact @ApiGenEq.gen_axis_3d_yaxis_eq_gen. Qed.
+
 Print Assumptions C06_axis_shift.
 Print Assumptions C06_searchsorted_commutes_with_translation.
 Print Assumptions C06_interp2d_translate.
@@ -87,3 +940,9 @@ Print Assumptions C06_vinterp3d_translate.
 Print Assumptions C06_omitting_origin_is_zero_origin.
 Print Assumptions C06_solver_receives_source_minus_origin.
 Print Assumptions C06_node_axes_translate.
+Print Assumptions C06_solver_receives_source_minus_origin_from_source_2d.
+Print Assumptions C06_solver_receives_source_minus_origin_from_source_3d.
+Print Assumptions C06_solve_result_carries_absolute_source_and_origin_2d.
+Print Assumptions C06_solve_result_carries_absolute_source_and_origin_3d.
+Print Assumptions C06_node_axes_from_source_2d_z.
+Print Assumptions C06_node_axes_from_source_3d_y.
